@@ -61,6 +61,44 @@ class Unit:
         return (self.crate, self.features)
 
 
+def unit_span_end(lines, j):
+    """line index (0-based) of the fn / macro-invocation line -> 1-based number of the line that closes the item"""
+    text = "\n".join(lines[j:])
+    opens = [k for k in (text.find("{"), text.find("(")) if k >= 0]
+    if not opens:
+        return j + 1
+    # a harness fn: `fn name() {` -> the first bracket is `(`; skip the parameter list, then match the body
+    depth = 0
+    k = 0
+    seen_body = False
+    is_macro = re.match(r"\s*[a-z_0-9]+!\(", lines[j]) is not None
+    in_str = False
+    while k < len(text):
+        c = text[k]
+        if in_str:
+            if c == "\\":
+                k += 1
+            elif c == '"':
+                in_str = False
+        elif c == '"':
+            in_str = True
+        elif text.startswith("//", k):
+            k = text.find("\n", k)
+            if k < 0:
+                break
+            continue
+        elif c in "({[":
+            depth += 1
+            if c == "{":
+                seen_body = True
+        elif c in ")}]":
+            depth -= 1
+            if depth == 0 and (seen_body or is_macro):
+                return j + 1 + text.count("\n", 0, k)
+        k += 1
+    return len(lines)
+
+
 def scan_units():
     units = []
     for path in sorted(glob.glob(os.path.join(HARNESS_DIR, "**", "*.rs"), recursive=True)):
@@ -97,7 +135,9 @@ def scan_units():
                 j += 1
             if harness is None:
                 raise SystemExit(f"runner: @unit {uid} in {path}: no harness fn found")
-            units.append(Unit(uid, attrs, harness, path, crate))
+            u = Unit(uid, attrs, harness, path, crate)
+            u.span = (i, unit_span_end(lines, j))  # 1-based line numbers: annotation .. end of the harness item
+            units.append(u)
     names = [u.harness for u in units]
     for a in names:
         for b in names:
@@ -156,8 +196,72 @@ def kani_cmd(crate, features, harnesses, timeout_s, jobs, playback=False):
     return cmd
 
 
-def run_group(crate, features, units, logdir, mem_gb, playback=False):
-    """Run all units of one (crate, features) group with one cargo-kani invocation per timeout class."""
+def harness_error_units(text, units):
+    """Map rustc errors of a failed build to the units whose harness text they point into.
+    returns (set of units, first error line) -- an error that points into no unit span cannot be isolated."""
+    hit, unplaced = set(), []
+    blocks = re.split(r"^(?=error(?:\[E\d+\])?: )", text, flags=re.M)
+    for b in blocks:
+        if not re.match(r"error(?:\[E\d+\])?: ", b) or b.startswith("error: could not compile") or b.startswith("error: aborting") \
+                or b.startswith("error: Failed to execute cargo"):
+            continue
+        locs = []
+        cur = None
+        for line in b.split("\n"):
+            m = re.match(r"\s*(?:-->|:::) (\S+?):(\d+):\d+", line)
+            if m:
+                cur = m.group(1)
+                locs.append((cur, m.group(2)))
+                continue
+            m = re.match(r"\s*(\d+)\s*\|", line)
+            if m and cur:
+                locs.append((cur, m.group(1)))  # gutter line numbers: labelled spans, e.g. "in this macro invocation"
+        placed = False
+        for (path, ln) in locs:
+            if "verif/harness" not in path:
+                continue
+            ap = os.path.normpath(os.path.join("/", path[path.index("verif/harness"):]))
+            for u in units:
+                if os.path.normpath(u.path) == ap and u.span[0] <= int(ln) <= u.span[1]:
+                    hit.add(u)
+                    placed = True
+        if not placed:
+            unplaced.append(b.split("\n")[0])
+    return hit, unplaced
+
+
+def run_group(crate, features, units, logdir, mem_gb, playback=False, skip=None):
+    """Run all units of one (crate, features) group with one cargo-kani invocation per timeout class.
+
+    Lost anchors: when the crate no longer compiles because a harness refers to an item whose name / signature
+    changed in /repo, the units that the compile errors point into are switched off (`--cfg verif_skip_<harness>`,
+    every unit carries `#[cfg(not(verif_skip_<harness>))]`) and the rest is run again, so that one lost anchor makes
+    ONE unit undecided instead of the whole crate."""
+    if skip is None and not playback:
+        all_units = [u for u in scan_units() if u.crate == crate]
+        skipped = {}
+        for attempt in range(4):
+            live = [u for u in units if u.id not in skipped]
+            if not live:
+                break
+            res = run_group(crate, features, live, logdir, mem_gb, playback, skip=sorted(skipped.values()))
+            missing = [u for u in live if res[u.id]["status"] == "MISSING" and res[u.id].get("build_errors")]
+            if len(missing) != len(live):
+                break
+            text = open(res[live[0].id]["log"], errors="replace").read()
+            bad, unplaced = harness_error_units(text, all_units)
+            bad = {u for u in bad if u.id not in skipped}
+            if not bad or unplaced:
+                break
+            for u in bad:
+                skipped[u.id] = u.harness
+        out = res
+        for u in units:
+            if u.id in skipped:
+                out[u.id] = {"status": "MISSING", "checks": [], "covers": [], "time": None, "playback": [], "raw": "",
+                             "build_errors": ["lost anchor: this harness no longer compiles against /repo (item renamed or signature changed); unit switched off, other units still decided"],
+                             "log": res[next(iter(res))]["log"] if res else "", "cmd": "", "group_wall_s": 0}
+        return out
     results = {}
     # split by timeout class so that one slow unit does not inflate everybody's timeout
     classes = {}
@@ -169,8 +273,10 @@ def run_group(crate, features, units, logdir, mem_gb, playback=False):
         env = dict(os.environ)
         env["CARGO_NET_OFFLINE"] = "true"
         env.pop("RUSTFLAGS", None)
+        if skip:
+            env["RUSTFLAGS"] = " ".join(f"--cfg verif_skip_{h}" for h in skip)
         cwd = os.path.join(REPO, CRATE_DIRS[crate])
-        tag = f"{crate}{'-' + features if features else ''}-t{tmo}{'-playback-' + us[0].harness if playback else ''}"
+        tag = f"{crate}{'-' + features if features else ''}-t{tmo}{'-playback-' + us[0].harness if playback else ''}{'-skip' + str(len(skip)) if skip else ''}"
         logpath = os.path.join(logdir, tag + ".log")
         t0 = time.time()
         # global guard: build (<= 15 min) + ceil(n/jobs) waves of harness timeouts
